@@ -181,13 +181,18 @@ fn new_timer(after: bool, idx: usize) -> Timer {
     new_timer_built(after, idx, 0)
 }
 
+thread_local! {
+    /// boundary values: a zero duration / the epoch itself instead of the usual 300 ms / 2023
+    static ZERO_TIME: std::cell::Cell<bool> = const { std::cell::Cell::new(false) };
+}
+
 /// `built`: 0 = builder chain (`then_send`); 1 = the timer future is created by `into_future`
 /// when the command is constructed and only awaited when the task first runs (a gap between
 /// creating and first polling the future in which the handle can be used)
 fn new_timer_built(after: bool, idx: usize, built: u8) -> Timer {
     let outcome = move |o: TimerOutcome| Ev::Outcome(idx, matches!(o, TimerOutcome::Completed(_)));
     let (cmd, handle) = if after {
-        let (b, h) = Time::notify_after(StdDuration::from_millis(300));
+        let (b, h) = Time::notify_after(if ZERO_TIME.with(|z| z.get()) { StdDuration::ZERO } else { StdDuration::from_millis(300) });
         let cmd = if built == 0 {
             b.then_send(outcome)
         } else {
@@ -201,7 +206,7 @@ fn new_timer_built(after: bool, idx: usize, built: u8) -> Timer {
         };
         (cmd, h)
     } else {
-        let (b, h) = Time::notify_at(SystemTime::UNIX_EPOCH + StdDuration::from_secs(1_700_000_000));
+        let (b, h) = Time::notify_at(SystemTime::UNIX_EPOCH + if ZERO_TIME.with(|z| z.get()) { StdDuration::ZERO } else { StdDuration::from_secs(1_700_000_000) });
         let cmd = if built == 0 {
             b.then_send(outcome)
         } else {
@@ -358,7 +363,8 @@ fn c18(args: &Args, report: &Arc<Mutex<Report>>, wd: &Watchdog) {
                 seq.push(ACTS[(x % 7) as usize]);
                 x /= 7;
             }
-            for (after, built) in [(true, 0u8), (false, 0), (true, 1), (false, 1)] {
+            for (after, built, zero) in [(true, 0u8, false), (false, 0, false), (true, 1, false), (false, 1, false), (true, 0, true), (false, 0, true)] {
+                ZERO_TIME.with(|z| z.set(zero));
                 total += 1;
                 if total % 4096 == 1 {
                     wd.begin(|| json!({"lane": "timelab", "sequence": seq, "notify_after": after, "built": built}).to_string());
@@ -370,7 +376,7 @@ fn c18(args: &Args, report: &Arc<Mutex<Report>>, wd: &Watchdog) {
                     Ok(Ok((class, outcome))) => {
                         r.set("end_classes", class);
                         if seq.len() >= 2 {
-                            r.nontrivial(hash_json(&(&seq, after, built)));
+                            r.nontrivial(hash_json(&(&seq, after, built, zero)));
                         }
                         r.set("timer_constructions", if built == 0 { "builder.then_send" } else { "into_future at construction, awaited in the task" });
                         match outcome {
@@ -385,7 +391,7 @@ fn c18(args: &Args, report: &Arc<Mutex<Report>>, wd: &Watchdog) {
                     Ok(Err((sig, what))) => r.violation(
                         &sig,
                         &what,
-                        json!({"lane": "timelab", "sequence": seq, "notify_after": after, "built": built, "what": what}),
+                        json!({"lane": "timelab", "sequence": seq, "notify_after": after, "built": built, "zero_duration_or_epoch": zero, "what": what}),
                     ),
                     Err(p) => r.violation(
                         &format!("panic/{}", vcommon::panic_site(&p)),
@@ -397,6 +403,7 @@ fn c18(args: &Args, report: &Arc<Mutex<Report>>, wd: &Watchdog) {
         }
     }
     wd.end();
+    ZERO_TIME.with(|z| z.set(false));
     {
         let mut r = report.lock().unwrap();
         r.count("single_timer_sequences", total);
@@ -993,6 +1000,11 @@ fn c19(args: &Args, report: &Arc<Mutex<Report>>, wd: &Watchdog) {
                 let neg = if neg == i64::MIN { i64::MIN + 1 } else { neg };
                 let td = if rng.chance(1, 4) {
                     TimeDelta::try_milliseconds(neg / 1000).unwrap_or(TimeDelta::nanoseconds(neg))
+                } else if rng.chance(1, 4) {
+                    // built from seconds + nanoseconds: reaches the values above i64::MAX ns (which
+                    // chrono cannot count in nanoseconds) up to and beyond u64::MAX ns
+                    let secs = rng.range(9_223_372_030, 18_446_744_080) as i64;
+                    TimeDelta::new(secs, rng.below(1_000_000_000) as u32).unwrap_or(TimeDelta::nanoseconds(neg))
                 } else {
                     TimeDelta::nanoseconds(neg)
                 };
